@@ -130,4 +130,14 @@ CHECKS = {
             R("TestC05_DependenciesReorg", 1600, 40000, shards=16),
         ],
     ),
+    "C04": dict(
+        level="exploration",
+        rule=("the C03 reorg state machine over configurations built to share: 1-4 declarations (log/tx) that may share a destination table (same identity columns), the same event with different selections and filters, one or two sources with different chains, all tasks of a source on one client (shared segment/head caches); actions grow / step / reorg (between and inside steps) / restart. "
+              "Oracle: frame condition on every step — the commit records of a step of pair p add/remove only rows and positions stamped (p.source, p.integration) — and at quiescence every pair separately equals the projection of its source's canonical chain. "
+              "non-trivial = >= 2 pairs AND a pair deleted rows (reorg unwind) or everything was restarted."),
+        assumptions=["fakepg/sim/model as for C01/C03", "open finding C16/shared-table-unique-key-first-wins: declarations with different identity columns do not share a table (excluded by construction, counted)"],
+        units=[
+            R("TestC04_Isolation", 2400, 60000, shards=16),
+        ],
+    ),
 }
